@@ -392,6 +392,14 @@ func (c *Ctx) summariseStmts(stmts []ast.Stmt, nodeName, byteVar string, pos tok
 						}
 						s.why = "unrecognised statement in loop body"
 						return false
+					case *ast.ExprStmt:
+						// q.push(child)
+						if _, elem, ok := c.m.pushCall(x); ok {
+							s.child = a.norm(elem)
+							continue
+						}
+						s.why = "unrecognised statement in loop body"
+						return false
 					case *ast.IfStmt:
 						if x.Else == nil && x.Init == nil && len(x.Body.List) == 1 {
 							if br, ok := x.Body.List[0].(*ast.BranchStmt); ok && br.Tok == token.CONTINUE {
